@@ -331,6 +331,9 @@ def run(tier, seed):
             rep.violation("decorator:model-mismatch", {"broken": "correspondence impl<->Model/Decorator.v (dexec): global event log", "case": sh[j][:4000]}, no_input=not fails)
     rep.cov["traces_validated_against_impl"] = len(texts)
     rep.notes["model_mismatches"] = mism
+    import kwprobe
+    kwprobe.probe(rep, "decorated", "decorator:kwargs")
+    kwprobe.probe(rep, "factory", "decorator:kwargs")
     if not proofs_ok:
         rep.violation("proof-broken", {"broken": rep.notes.get("broken_file", "?"), "log": rep.notes.get("build_log_tail", "")[-1500:]}, no_input=True)
     return rep.finish()
